@@ -657,10 +657,12 @@ theorem field_roles_consistent :
 /-! ### non-vacuity: a concrete accepted quote in a concrete ideal world -/
 namespace Demo
 
-def rootC : Cert := ⟨[0], some [9], .bad⟩
-def interC : Cert := ⟨[1], some [8], .bad⟩
-def leafC : Cert := ⟨[2], some [7], .ok (some [0x00, 0x60, 0x6a, 0, 0, 0]) (List.replicate 16 5) 10⟩
-def tcbC : Cert := ⟨[3], some [6], .bad⟩
+def rootC : Cert := { der := [0], ecdsaPk := some [9], ext := .bad }
+def interC : Cert := { der := [1], ecdsaPk := some [8], ext := .bad }
+def leafC : Cert :=
+  { der := [2], ecdsaPk := some [7], ext := .ok (some [0x00, 0x60, 0x6a, 0, 0, 0]) (List.replicate 16 5) 10,
+    pceId := some [0, 0] }
+def tcbC : Cert := { der := [3], ecdsaPk := some [6], ext := .bad }
 def tag32 : Bytes := List.replicate 32 0xAB
 def ak : Bytes := List.replicate 64 1
 def auth : Bytes := List.replicate 32 2
@@ -681,7 +683,7 @@ def ti0 : TcbInfo :=
     fmspc := [48, 48, 54, 48, 54, 65, 48, 48, 48, 48, 48, 48], evalNum := 13,
     levels := [⟨11, List.replicate 16 5, List.replicate 16 0, 1⟩, ⟨10, List.replicate 16 5, List.replicate 16 0, 2⟩,
                ⟨0, List.replicate 16 0, List.replicate 16 0, 5⟩],
-    modules := [] }
+    modules := [], pceId := [48, 48, 48, 48] }
 def qe0 : QeIdentity :=
   { id := sQE, version := 2, issueDate := some 900, nextUpdateOk := true, evalNum := 13,
     miscSelect := hex0 8, miscSelectMask := hex0 8, attributes := hex0 32, attributesMask := hex0 32,
@@ -800,6 +802,84 @@ example : verify L0 env0 (some { defaultPolicy with minEval := 14 }) 2000 q0 (so
 example : verify L0 env0 (some { defaultPolicy with blacklist := [ti0.fmspc] }) 2000 q0 (some b0) ≠ .ok v0 :=
   blacklisted_fmspc_rejected (ti := ti0) rfl (Or.inl (by simp [defaultPolicy])) v0
 
+/-- K1 witness: the same platform (PCE-ID 0000) under a TCB info for PCE-ID 0001 is accepted. -/
+def tiPce : TcbInfo := { ti0 with pceId := [48, 48, 48, 49] }
+def Lpce : Lib := { L0 with jsonTcb := fun r => if r = [1] then some tiPce else none }
+
+set_option maxRecDepth 100000 in
+protected theorem accepted_pce : verify Lpce env0 none 2000 q0 (some b0) = .ok v0 := Demo.isOk_eq (by decide)
+
+/-- K2 witness: black list entry "00606a000000", TCB info FMSPC "00606A000000". -/
+def polCase : Policy := { defaultPolicy with blacklist := [[48, 48, 54, 48, 54, 97, 48, 48, 48, 48, 48, 48]] }
+
+set_option maxRecDepth 100000 in
+protected theorem accepted_case : verify L0 env0 (some polCase) 2000 q0 (some b0) = .ok v0 := Demo.isOk_eq (by decide)
+
 end Demo
+
+/-! ### known findings K1, K2: clauses of the property text that the code does not enforce
+
+`verify_iff` characterises what the code accepts. The property text additionally says that
+collateral not belonging to the quote's platform is never accepted and that acceptance is within
+policy. Read literally this needs two more links, stated here as the *spec predicate*; the two
+theorems below exhibit accepted inputs that violate them (the harness reports the same inputs on
+the real code as `foreign-collateral-pceid-accepted` and `fmspc-blacklist-case-bypass`). -/
+
+/-- The property's acceptance predicate: the code's links plus (K1) the TCB info is for the PCE of
+the quote's PCK certificate and (K2) the FMSPC is not black-listed as a platform identifier. -/
+def AcceptedSpec (L : Lib) (env : Env) (pol : Policy) (ts : Time) (q : Quote) (tcb : Option Bundle)
+    (v : Verified) : Prop :=
+  Accepted L env pol ts q tcb v ∧
+    ∀ b ti, tcb = some b → L.jsonTcb b.tcbInfo.raw = some ti →
+      pceIdOK q ti = true ∧ blacklistedByValue pol ti = false
+
+/-- The stronger `foreign_pce…` clause: a TCB info for another PCE is rejected. -/
+def ForeignPceIdRejected : Prop :=
+  ∀ (L : Lib) (env : Env) (policy : Option Policy) (ts : Time) (q : Quote) (b : Bundle)
+    (ti : TcbInfo) (v : Verified),
+    L.jsonTcb b.tcbInfo.raw = some ti → pceIdOK q ti = false →
+    verify L env policy ts q (some b) ≠ .ok v
+
+/-- K1: the clause does NOT hold for the verifier as written (`pceId` is never read, see
+`generated_field_uses_match`): negation witness. -/
+theorem foreign_pceid_clause_fails : ¬ ForeignPceIdRejected := by
+  intro h
+  exact h Demo.Lpce Demo.env0 none 2000 Demo.q0 Demo.b0 Demo.tiPce Demo.v0 rfl (by decide)
+    Demo.accepted_pce
+
+/-- The black list read as a list of platforms: an entry denoting the TCB info's FMSPC rejects. -/
+def BlacklistByValueRejected : Prop :=
+  ∀ (L : Lib) (env : Env) (policy : Option Policy) (ts : Time) (q : Quote) (b : Bundle)
+    (ti : TcbInfo) (v : Verified),
+    L.jsonTcb b.tcbInfo.raw = some ti →
+    blacklistedByValue (policy.getD defaultPolicy) ti = true →
+    verify L env policy ts q (some b) ≠ .ok v
+
+/-- K2: the black list is compared as a string (`blacklisted_fmspc_rejected`); an entry that
+differs from the TCB info's FMSPC only in hex case does not block it: negation witness. -/
+theorem blacklist_case_bypass : ¬ BlacklistByValueRejected := by
+  intro h
+  exact h Demo.L0 Demo.env0 (some Demo.polCase) 2000 Demo.q0 Demo.b0 Demo.ti0 Demo.v0 rfl
+    (by decide) Demo.accepted_case
+
+/-- Hence the code's acceptance does not imply the spec predicate. -/
+theorem accepted_not_spec :
+    ∃ (L : Lib) (env : Env) (policy : Option Policy) (ts : Time) (q : Quote) (tcb : Option Bundle)
+      (v : Verified), verify L env policy ts q tcb = .ok v ∧
+      ¬ AcceptedSpec L env (policy.getD defaultPolicy) ts q tcb v := by
+  refine ⟨Demo.Lpce, Demo.env0, none, 2000, Demo.q0, some Demo.b0, Demo.v0, Demo.accepted_pce, ?_⟩
+  intro hs
+  have := (hs.2 Demo.b0 Demo.tiPce rfl rfl).1
+  revert this
+  decide
+
+/-- On inputs where the two extra links hold the code is exactly the spec. -/
+theorem spec_iff_on_bound_inputs {L : Lib} {env : Env} {policy : Option Policy} {ts : Time}
+    {q : Quote} {tcb : Option Bundle} {v : Verified}
+    (hb : ∀ b ti, tcb = some b → L.jsonTcb b.tcbInfo.raw = some ti →
+      pceIdOK q ti = true ∧ blacklistedByValue (policy.getD defaultPolicy) ti = false) :
+    verify L env policy ts q tcb = .ok v ↔
+      AcceptedSpec L env (policy.getD defaultPolicy) ts q tcb v :=
+  ⟨fun h => ⟨verify_binds h, hb⟩, fun h => verify_complete h.1⟩
 
 end OasisProofs.C18
